@@ -56,6 +56,30 @@ def implCls (j : Json) : String :=
   else if (j.getObjVal? "hang").isOk then "hang"
   else "?"
 
+/-- API coverage of `serde_arrow::Error`: an error object written by `outcome::run_sa` carries, beside the message and
+annotations PARSED from the Display text (`msg`, `ann`), the accessor view `acc` of the same error.  The accessors agree
+when `message()` is the parsed message, Display is `Error: ` + message (+ ` (annotations)`), Debug repeats the Display
+text and continues on a new line (the backtrace note), and a wrapped cause (`source()`) is the one quoted at the end of the
+message.  Returns the aspect that disagrees. -/
+def accessorsDisagree (err : Json) : Option String :=
+  match err.getObjVal? "acc" with
+  | .error _ => none
+  | .ok acc =>
+    let str (o : Json) (k : String) : String := (o.getObjValAs? String k).toOption.getD "\u0000<absent>"
+    let msg := str err "msg"
+    let message := str acc "message"
+    let display := str acc "display"
+    let debug := str acc "debug"
+    let hasAnn := match err.getObjVal? "ann" with | .ok (.arr a) => !a.isEmpty | _ => false
+    if message != msg then some "message"
+    else if !(display.startsWith ("Error: " ++ message)) then some "display-prefix"
+    else if !hasAnn && display != "Error: " ++ message then some "display"
+    else if hasAnn && !(display.startsWith ("Error: " ++ message ++ " (") && display.endsWith ")") then some "display-annotations"
+    else if !(debug.startsWith (display ++ "\n")) then some "debug"
+    else match acc.getObjValAs? String "source" with
+      | .ok src => if message.endsWith src then none else some "source"   -- the crate's own conversions (`From<..> for Error`) quote the cause at the end of the message
+      | .error _ => none
+
 def hexDigit (c : Char) : Option Nat :=
   if '0' ≤ c ∧ c ≤ '9' then some (c.toNat - '0'.toNat)
   else if 'a' ≤ c ∧ c ≤ 'f' then some (c.toNat - 'a'.toNat + 10)
